@@ -46,17 +46,20 @@ type Input struct {
 	NoVDB    bool   `json:"novdb"`
 	EmptyDev bool   `json:"emptydev"`
 	NoBdeps  bool   `json:"nobdeps"`
-	Script   []B    `json:"script"` // lines of the -addfiles file
+	Script   []B    `json:"script"` // lines of the -addfiles file ("@EXT@" = the directory of the outside files)
 	UseFile  bool   `json:"use_addfiles"`
+	Ext      []Node `json:"ext,omitempty"` // files outside the build root (r5_src.go); groups shared with Tree
 }
 
 func (p Pkg) Dir() string { return "/var/db/pkg/" + p.Cat + "/" + p.PF }
 
 // ---- materialise a tree on disk ----
-func materialise(root string, nodes []Node) error {
+func materialise(root string, nodes []Node) error { return materialiseInto(root, nodes, map[int]string{}) }
+
+// first: hard-link group -> the path that was created first (shared between the build root and the outside files)
+func materialiseInto(root string, nodes []Node, first map[int]string) error {
 	sorted := append([]Node{}, nodes...)
 	sort.Slice(sorted, func(i, j int) bool { return sorted[i].Path < sorted[j].Path })
-	first := map[int]string{}
 	if err := os.MkdirAll(root, 0755); err != nil {
 		return err
 	}
@@ -106,9 +109,11 @@ type SNode struct {
 	Group  uint64 // 0 = link count 1
 }
 
-func scan(root string) ([]SNode, error) {
+func scan(root string) ([]SNode, error) { return scanInto(root, map[[2]uint64]uint64{}) }
+
+// groups: (dev, inode) -> group number, shared between the build root and the outside files
+func scanInto(root string, groups map[[2]uint64]uint64) ([]SNode, error) {
 	var out []SNode
-	groups := map[[2]uint64]uint64{}
 	var walk func(rel string) error
 	walk = func(rel string) error {
 		full := root + rel
@@ -303,13 +308,17 @@ func Run(in Input) *common.Case {
 	root := base + "/root"
 	desc := map[string]interface{}{"input": in}
 	c := &common.Case{Desc: desc}
-	if err := materialise(root, in.Tree); err != nil {
+	first := map[int]string{}
+	if err := materialiseInto(root, in.Tree, first); err != nil {
 		panic(err)
 	}
-	nodes, err := scan(root)
+	groups := map[[2]uint64]uint64{}
+	nodes, err := scanInto(root, groups)
 	if err != nil {
 		panic(err)
 	}
+	// outside files (src= sources): created next to the build root, looked at with lstat like the tree
+	in, extTerm := prepareExt(base, in, first, groups)
 	// arguments
 	var atoms []string
 	for _, p := range in.Pkgs {
@@ -448,11 +457,11 @@ func Run(in Input) *common.Case {
 	if in.UseFile {
 		script = common.Ss(in.Script)
 	}
-	inTerm := q.App("MkIn", q.List(nts), q.List(pts), q.Bool(in.NoVDB), q.Bool(in.EmptyDev), q.HxList(script))
+	inTerm := q.App("MkIn", q.List(nts), q.List(pts), q.Bool(in.NoVDB), q.Bool(in.EmptyDev), q.HxList(script), extTerm)
 	c.Coq = q.App("C06.MkCase", inTerm, q.Bool(in.NoBdeps), q.Bool(selOK),
 		q.App("C06.MkObs", listTerm, tarTerm, q.Bool(extractOK)))
 
-	js, _ := json.Marshal(in)
+	js, _ := json.Marshal(desc["input"])
 	h := sha1.Sum(js)
 	c.Key = hex.EncodeToString(h[:])
 	c.Nontrivial = (nsel > 0 && nsel < len(in.Pkgs)) || (in.UseFile && len(in.Script) > 0)
@@ -474,6 +483,9 @@ func Run(in Input) *common.Case {
 				k := f[0]
 				if strings.Contains(f[1], "*") {
 					k += "-wild"
+				}
+				if strings.Contains(string(l), " src=") {
+					k += "-src"
 				}
 				cl = append(cl, "line:"+k)
 			}
